@@ -8,14 +8,14 @@ W=/tmp/seed$suf-$id
 cd "$W" || exit 2
 [ -s SEED_PATCH.diff ] || { echo "no SEED_PATCH.diff"; exit 2; }
 demo=""
-for d in vaporetto/tests/seed_demo.rs vaporetto_rules/tests/seed_demo.rs vaporetto_tantivy/tests/seed_demo.rs manipulate_model/tests/seed_demo.rs predict/tests/seed_demo.rs seed_demo.sh; do [ -f "$d" ] && demo=$d; done
+for d in evaluate/tests/seed_demo.rs train/tests/seed_demo.rs vaporetto/tests/seed_demo.rs vaporetto_rules/tests/seed_demo.rs vaporetto_tantivy/tests/seed_demo.rs manipulate_model/tests/seed_demo.rs predict/tests/seed_demo.rs seed_demo.sh; do [ -f "$d" ] && demo=$d; done
 [ -z "$demo" ] && demo=$(git status --porcelain | grep '^??' | grep -v SEED_PATCH | awk '{print $2}' | head -1)
 echo "demo: $demo"
 run_demo() {
   case "$demo" in
     *.sh) bash "$demo" >/tmp/seed-demo-$id.log 2>&1 ;;
     */tests/*.rs) pkg=$(echo "$demo" | cut -d/ -f1); t=$(basename "$demo" .rs)
-         feats=""; grep -q "Trainer" "$demo" && [ "$pkg" = vaporetto ] && feats="--features train,kytea"; grep -q "verif_examples" "$demo" && [ "$pkg" = vaporetto ] && feats="--features train,kytea,verif-hooks"
+         feats=""; grep -q "Trainer" "$demo" && [ "$pkg" = vaporetto ] && feats="--features train,kytea"; grep -q "verif_examples\|verif_hooks\|verif-hooks" "$demo" && [ "$pkg" = vaporetto ] && feats="--features train,kytea,verif-hooks"
          grep -q "Kytea" "$demo" && [ "$pkg" = vaporetto ] && feats="--features train,kytea"
          cargo test --offline -p $pkg $feats --test $t >/tmp/seed-demo-$id.log 2>&1 ;;
     *) echo "unknown demo kind $demo"; return 2 ;;
